@@ -16,9 +16,13 @@ func init() {
 			"(2) that call is dominated by Launched=Unknown and a miss in the launch cache, every successful create is stored in the cache before any return and before Launched is set; " +
 			"(3) the sub-reconcilers run only after AddFinalizer and (if it changed the object) a successful Patch, in the order launch, registration, initialization, liveness; " +
 			"(4) each of Launched/Registered/Initialized is set true at exactly one site, dominated by its observable preconditions (all literals listed in the rows); " +
-			"(5) capacity errors lead to Delete of the NodeClaim on every path and never to a returned instance.",
-		NotCovered: []string{"duplicate launches across controller restarts (the cache is in memory; the property says 'while the controller keeps running')", "idempotence of the provider", "freshness of the informer cache beyond the launch cache bridge"},
-		Rules:      c14Rules,
+			"(5) capacity errors lead to Delete of the NodeClaim on every path and never to a returned instance; the error of Create is put to both capacity classifiers on every path before launchNodeClaim is left " +
+			"(a capacity error wrapped in a CreateError or any other error is still recognised: no case that matches a wrapper comes first), and a nil error is answered only after a successful create or such a classification; " +
+			"(6) Registration / Initialization stay behind Launch through the node lookup: utils/nodeclaim.NodeForNodeClaim hands back a Node only for a NodeClaim whose Status.ProviderID is non-empty " +
+			"(tested in the function, in a private helper, or in AllNodesForNodeClaim whose list it takes the Node from).",
+		NotCovered: []string{"whether a cloud provider wraps its capacity errors such that errors.As finds them (the classifiers' contract, C14.ERRC1/2, is what is decided)", "that a Node with a non-empty provider id equal to the NodeClaim's belongs to the instance that was launched (the provider's uniqueness of ids)",
+			"duplicate launches across controller restarts (the cache is in memory; the property says 'while the controller keeps running')", "idempotence of the provider", "freshness of the informer cache beyond the launch cache bridge"},
+		Rules: c14Rules,
 	})
 }
 
@@ -32,6 +36,7 @@ func c14Rules(tier string) []Rule {
 	rules = append(rules, errClassifier("C14.ERRC2", "NodeClassNotReadyError", false)...)
 	// the labels / annotations resolved at launch are persisted before Launched=True is: a requeue that already sees
 	// Launched skips Launch and would never write them again (the NodeClaim then looks drifted from its NodePool)
+	rules = append(rules, c14ClassifiedFirst("C14.MPT7"), c14NodeLookup("C14.RET1"))
 	rules = append(rules, NOREACH{ID: "C14.NR1", Fn: "(*life.Controller).Reconcile", From: `^call iface:\(cr/client\.SubResourceWriter\)\.Patch\(iface:\(cr/client\.StatusClient\)\.Status\(\$0\.kubeClient\), `,
 		Sink: `^call iface:\(cr/client\.Writer\)\.Patch\(\$0\.kubeClient, `, Note: "no metadata patch after the status patch"})
 	return rules
@@ -93,8 +98,15 @@ func c14RulesBase(tier string) []Rule {
 		)},
 		POST{ID: "C14.POST2", Fn: lnc, FromLit: `+^cloudprovider\.IsInsufficientCapacityError\(iface:\(cloudprovider\.CloudProvider\)\.Create\(`, Must: []string{ncDelete}},
 		POST{ID: "C14.POST3", Fn: lnc, FromLit: `+^cloudprovider\.IsNodeClassNotReadyError\(iface:\(cloudprovider\.CloudProvider\)\.Create\(`, Must: []string{ncDelete}},
-		// any other create error is returned (not swallowed): the default branch returns a non-nil error
-		IMPL{ID: "C14.IMPL1", Fn: lnc, Lit: `-^cloudprovider\.IsNodeClassNotReadyError\(iface:\(cloudprovider\.CloudProvider\)\.Create\(`, Not: core.RetOK},
+		// any other create error is returned (not swallowed): launchNodeClaim answers with a nil error only when Create
+		// succeeded or its error was classified as a capacity error (then the NodeClaim is deleted, DOM5/POST2/POST3).
+		// (Restates the former C14.IMPL1 — "after IsNodeClassNotReadyError⁻ no success return" — without assuming which
+		// of the two capacity cases is asked last: swapping them is behaviour-preserving.)
+		MPT{ID: "C14.MPT8", Fn: lnc, Ret: core.RetOK, Min: 2, Gates: gates(
+			G(`+^iface:\(cloudprovider\.CloudProvider\)\.Create\(\$0\.cloudProvider, \$2\)#1 == nil$`,
+				`+^cloudprovider\.IsInsufficientCapacityError\(iface:\(cloudprovider\.CloudProvider\)\.Create\(\$0\.cloudProvider, \$2\)#1\)$`,
+				`+^cloudprovider\.IsNodeClassNotReadyError\(iface:\(cloudprovider\.CloudProvider\)\.Create\(\$0\.cloudProvider, \$2\)#1\)$`),
+		)},
 
 		// ---- controller: finalizer before sub-reconcilers
 		DOM{ID: "C14.DOM2", Fn: ctrl, Sink: `^call iface:\(cr/reconcile\.TypedReconciler\[\*apis/v1\.NodeClaim\]\)\.Reconcile\(`, Gates: gates(
@@ -223,4 +235,134 @@ func c14Order(w *core.World, id string) []core.Result {
 		}
 	}
 	return []core.Result{core.OK(id, "REG", construct, 4, "order launch, registration, initialization, liveness")}
+}
+
+// C14.MPT7: the create error is classified before anything else is done with it. launchNodeClaim may only be left
+//   - with Create's error nil, or
+//   - after that very error was put to cloudprovider.IsInsufficientCapacityError AND to IsNodeClassNotReadyError (an
+//     exit on the positive edge of either one is the Delete reaction, see POST2/POST3/DOM5, and need not ask the other).
+//
+// POST2/POST3 say "classified ⇒ Delete"; they are vacuous for an error that never reaches the classifier. The classifiers
+// use errors.As, i.e. they recognise a capacity error wrapped in any other error (a CreateError carrying a condition
+// reason, a context error, …); a branch that handles such a wrapper and returns before the classification turns
+// "capacity error ⇒ delete" into "retry forever". The order of the two capacity cases among themselves is free.
+func c14ClassifiedFirst(id string) Rule {
+	const lnc = "(*life.Launch).launchNodeClaim"
+	cerr := `iface:\(cloudprovider\.CloudProvider\)\.Create\(\$0\.cloudProvider, \$2\)#1`
+	created := `+^` + cerr + ` == nil$`
+	ice := `^cloudprovider\.IsInsufficientCapacityError\(` + cerr + `\)$`
+	ncnr := `^cloudprovider\.IsNodeClassNotReadyError\(` + cerr + `\)$`
+	return core.Custom{ID: id, Kind: "MPT", Run: func(w *core.World, id string) []core.Result {
+		// "every return" is decided as "every return with a nil error" (5 today: created, deleted ×2, delete failed with an
+		// ignorable error ×2) plus "every return with a non-nil error" (3 today: the retry, delete failed ×2): unlike the
+		// outcome "any", these two are also followed into a private helper whose result is handed back
+		// (`return l.createFailed(ctx, nodeClaim, err)`).
+		g := gates(
+			G(created, `?`+ice, `+`+ncnr),
+			G(created, `?`+ncnr, `+`+ice),
+		)
+		rs := MPT{ID: id, Fn: lnc, Ret: core.RetSpec{Index: -1, Want: "nil"}, Min: 2, Gates: g}.Check(w)
+		rs = append(rs, MPT{ID: id, Fn: lnc, Ret: core.RetSpec{Index: -1, Want: "nonnil"}, Gates: g}.Check(w)...)
+		for i := range rs {
+			if rs[i].Status != core.Discharged {
+				rs[i].Msg = "the error of CloudProvider.Create is not put to IsInsufficientCapacityError / IsNodeClassNotReadyError on every path before launchNodeClaim is left (a capacity error wrapped in another error is then retried forever instead of deleting the NodeClaim): " + rs[i].Msg
+			}
+		}
+		return rs
+	}}
+}
+
+// C14.RET1: a NodeClaim whose Status.ProviderID is empty resolves to no Node. Registration has no test of Launched of its
+// own: it stays behind Launch only because utils/nodeclaim.NodeForNodeClaim finds nothing for a NodeClaim that has no
+// provider id yet (the field index would otherwise answer the lookup for "" with any Node that has not been given its
+// provider id). Every value that NodeForNodeClaim can return as a (non-nil) Node therefore
+//   - is returned under `Status.ProviderID != ""` of the NodeClaim passed in — tested in NodeForNodeClaim itself or in a
+//     private helper it returns through —, or
+//   - is an element of AllNodesForNodeClaim(·, the same NodeClaim)#0, and AllNodesForNodeClaim returns a non-nil list
+//     only under that test.
+func c14NodeLookup(id string) Rule {
+	const (
+		one = "utils/nodeclaim.NodeForNodeClaim"
+		all = "utils/nodeclaim.AllNodesForNodeClaim"
+	)
+	return core.Custom{ID: id, Kind: "RET", Run: func(w *core.World, id string) []core.Result {
+		construct := "RET:" + one + "#ret0⇐Status.ProviderID≠\"\""
+		fn := w.Fn(one)
+		if fn == nil {
+			return []core.Result{core.Anchor(id, "RET", one)}
+		}
+		resolved := G(`-^\$2\.Status\.ProviderID == ""$`, `+^len\(\$2\.Status\.ProviderID\)>=1$`)
+		elem := regexp.MustCompile(`^utils/nodeclaim\.AllNodesForNodeClaim\([^(),]*, \$2\)#0\[.*\]$`)
+		nonnil := func(idx int) core.RetSpec { return core.RetSpec{Index: idx, Want: "nonnil"} }
+		var out []core.Result
+		n, viaAll := 0, false
+		pending := map[ssa.Instruction]int{} // call of a helper whose result #k is handed back as the Node
+		w.WithHelpers(fn, func(f *ssa.Function, via ssa.Instruction) {
+			idx := 0
+			if via != nil {
+				k, ok := pending[via]
+				if !ok {
+					return
+				}
+				delete(pending, via)
+				idx = k
+			}
+			for _, s := range w.ReturnSinks(f, nonnil(idx)) {
+				n++
+				if w.RetGuarded(s, resolved) {
+					continue
+				}
+				if s.Val != nil && core.MatchRe(elem, w.Render(s.Val)) {
+					viaAll = true
+					continue
+				}
+				// handed back from a helper: decided when the helper is visited (private helpers only)
+				var call *ssa.Call
+				k := 0
+				switch x := s.Val.(type) {
+				case *ssa.Call:
+					call = x
+				case *ssa.Extract:
+					call, _ = x.Tuple.(*ssa.Call)
+					k = x.Index
+				}
+				if call != nil && call.Common().StaticCallee() != nil && core.IsKarpenterFn(call.Common().StaticCallee()) && core.FnName(call.Common().StaticCallee()) != all {
+					if _, dup := pending[call]; !dup {
+						pending[call] = k
+						continue
+					}
+				}
+				out = append(out, core.Bad(id, "RET", construct, w.InstrPos(s.Ret),
+					fmt.Sprintf("%s can hand back a Node (%s) for a NodeClaim whose Status.ProviderID is empty: the value is neither returned under `Status.ProviderID != \"\"` nor an element of %s(…, nodeClaim)#0 — Registration would adopt any Node without provider id before the NodeClaim is launched", core.FnName(f), s.Desc, all)))
+			}
+		})
+		for call := range pending {
+			out = append(out, core.Bad(id, "RET", construct, w.InstrPos(call),
+				fmt.Sprintf("%s hands back the result of `%s`, which cannot be looked into (not a private helper): not known to be nil for a NodeClaim whose Status.ProviderID is empty", one, clipStr(w.RenderInstr(call), 120))))
+		}
+		if n == 0 {
+			out = append(out, core.Bad(id, "RET", construct, w.Pos(fn.Pos()), "vacuous: "+one+" never returns a Node (idiom not recognised)"))
+		}
+		m := 0
+		if viaAll {
+			af := w.Fn(all)
+			if af == nil {
+				return append(out, core.Anchor(id, "RET", all))
+			}
+			for _, s := range w.ReturnSinks(af, nonnil(0)) {
+				m++
+				if !w.RetGuarded(s, resolved) {
+					out = append(out, core.Bad(id, "RET", "RET:"+all+"#ret0⇐Status.ProviderID≠\"\"", w.InstrPos(s.Ret),
+						fmt.Sprintf("%s can return a list of Nodes (%s) for a NodeClaim whose Status.ProviderID is empty (the lookup by spec.providerID=\"\" matches every Node that has no provider id yet); %s takes its Node from this list", all, s.Desc, one)))
+				}
+			}
+			if m == 0 {
+				out = append(out, core.Bad(id, "RET", "RET:"+all+"#ret0⇐Status.ProviderID≠\"\"", w.Pos(af.Pos()), "vacuous: "+all+" never returns a list (idiom not recognised)"))
+			}
+		}
+		if len(out) == 0 {
+			out = append(out, core.OK(id, "RET", construct, n+m, fmt.Sprintf("%d Node return(s) of %s, %d list return(s) of %s: only for a NodeClaim with a provider id", n, one, m, all)))
+		}
+		return out
+	}}
 }
